@@ -138,6 +138,12 @@ func (in *Interp) fmtTyped(verb byte, flags string, a value, t types.Type) *Str 
 			}
 			return lit(fmt.Sprintf(f, x.Uint()))
 		}
+		if verb == 'x' && flags == "04" && x.W == 8 {
+			hexd := func(n *Term) *Term {
+				return Ite(ULt(n, BVu(8, 10)), Add(n, BVu(8, '0')), Add(n, BVu(8, 'a'-10)))
+			}
+			return &Str{Kind: sBytes, B: []*Term{BVu(8, '0'), BVu(8, '0'), hexd(LShr(x, BVu(8, 4))), hexd(BAnd(x, BVu(8, 15)))}}
+		}
 		if verb == 'c' {
 			return &Str{Kind: sBytes, B: in.encodeRune(toW(x, 32, false))}
 		}
